@@ -80,12 +80,13 @@ type Axiom struct {
 }
 
 type Specs struct {
-	Contracts map[string]*Contract
-	SpecFuncs map[string]*SpecFunc
-	Ghosts    map[string]*GhostVar
-	GhostList []string
-	Axioms    []*Axiom
-	Files     []string
+	Contracts  map[string]*Contract
+	SpecFuncs  map[string]*SpecFunc
+	Ghosts     map[string]*GhostVar
+	GhostList  []string
+	Axioms     []*Axiom
+	GlobalInvs []*Axiom
+	Files      []string
 }
 
 func NewSpecs() *Specs {
@@ -351,6 +352,18 @@ func (sp *Specs) LoadSpecFile(path string, pkgPath string, external bool) error 
 			}
 			sp.Ghosts[f[0]] = &GhostVar{Name: f[0], PkgPath: pkgPath, Type: ty}
 			sp.GhostList = append(sp.GhostList, f[0])
+		case "globalinv":
+			// globalinv name: expr — a fact about package-level variables that is ASSUMED at the entry of every
+			// function of this package under contract (listed in the evidence); it is not proved.
+			cur = nil
+			cl, err := parseClause(word, rest, path, ln)
+			if err != nil {
+				return fail(err)
+			}
+			if cl.Label == "" {
+				return fail(fmt.Errorf("globalinv needs a name"))
+			}
+			sp.GlobalInvs = append(sp.GlobalInvs, &Axiom{Name: cl.Label, PkgPath: pkgPath, E: cl.E, Src: cl.Src, File: path, Tags: cl.Tags})
 		case "axiom", "lemma":
 			cur = nil
 			cl, err := parseClause(word, rest, path, ln)
@@ -406,14 +419,25 @@ func (sp *Specs) LoadSpecFile(path string, pkgPath string, external bool) error 
 			if cur == nil {
 				return fail(fmt.Errorf("at outside a func block"))
 			}
-			k := strings.Index(rest, ": assert ")
+			// "assert" is part of the claim. "hint" is a proof aid only: it is proved where it can be stated and then
+			// used as a lemma, but if it cannot be evaluated any more (it names a local variable that a harmless
+			// edit renamed) it is dropped, and the obligations it was meant to help have to stand on their own.
+			kw := ": assert "
+			k := strings.Index(rest, kw)
 			if k < 0 {
-				return fail(fmt.Errorf("expected 'at <point>: assert <expr>'"))
+				kw = ": hint "
+				k = strings.Index(rest, kw)
+			}
+			if k < 0 {
+				return fail(fmt.Errorf("expected 'at <point>: assert|hint <expr>'"))
 			}
 			point := strings.TrimSpace(rest[:k])
-			cl, err := parseClause("assert", rest[k+len(": assert "):], path, ln)
+			cl, err := parseClause("assert", rest[k+len(kw):], path, ln)
 			if err != nil {
 				return fail(err)
+			}
+			if kw == ": hint " {
+				cl.Kind = "hint"
 			}
 			cur.Asserts[point] = append(cur.Asserts[point], cl)
 		case "trusted":
